@@ -83,6 +83,9 @@ def ob_series(h):
     classified as UTILITY profiles -- for every combination of graphs present and of the graph-affecting options."""
     from types import SimpleNamespace
     from OpenPinch.lib.enums import ProblemTableLabel as PT
+    from pvc.engine import ReplayMismatch
+    if not h.symbolic:
+        raise ReplayMismatch("modular obligation: callees are recorders, no native replay")
     present = {g: h.choice(f"has_{g.name}", [True, False]) for g in (GraphType.GCC, GraphType.TSP, GraphType.SUGCC, GraphType.GCC_HP, GraphType.CC)}
     cfg = SimpleNamespace(DO_VERTICAL_GCC=h.choice("DO_VERTICAL_GCC", [False, True]), DO_ASSITED_HT=h.choice("DO_ASSITED_HT", [False, True]),
                           DO_BALANCED_CC=h.choice("DO_BALANCED_CC", [True, False]))
